@@ -82,6 +82,8 @@ static void collect_refs(const Expr& e, std::set<std::string>& out)
 {
   if (e.k == Expr::RULE_REF)
     out.insert(e.name);
+  if (e.k == Expr::OF_RULES)
+    for (auto& n : e.rnames) out.insert(n);
   for (auto& c : e.ch) collect_refs(c, out);
   for (auto& c : e.qe) collect_refs(c, out);
 }
@@ -138,6 +140,7 @@ struct GenOpts
   bool modifiers = true;  // global / private
   int cond_depth = 3;
   bool allow_console = true;
+  bool rule_sets = true;  // `N of (w*)`, `any of (r1, q4)`: rule sets over earlier rules of the namespace
 };
 
 // set by properties whose buffers are large and sanitizer slow-down high (atom-less
@@ -246,11 +249,21 @@ static GSet gen_ruleset(Src& s, const GenOpts& o)
   size_t nrules = s.range(1, o.max_rules);
   size_t nns = s.range(1, o.max_ns);
   static const char* NS[] = {"default", "nsA", "nsB"};
+  // namespaces and name families are drawn up front: a wildcard rule set `w*` may only be used where
+  // no later rule of the namespace starts with `w` (the compiler rejects such a rule: "identifier
+  // matches previously used wildcard rule set")
+  static const char FAM[] = {'r', 'r', 'q', 'w'};
+  std::vector<size_t> ns_of(nrules), fam_of(nrules);
+  for (size_t r = 0; r < nrules; r++)
+  {
+    ns_of[r] = s.range(0, nns - 1);
+    fam_of[r] = s.range(0, 3);
+  }
   for (size_t r = 0; r < nrules; r++)
   {
     GRule gr;
-    gr.ns = NS[s.range(0, nns - 1)];
-    gr.name = strf("r%zu", r);
+    gr.ns = NS[ns_of[r]];
+    gr.name = strf("%c%zu", FAM[fam_of[r]], r);
     if (o.modifiers)
     {
       gr.global = s.coin(12);
@@ -277,6 +290,32 @@ static GSet gen_ruleset(Src& s, const GenOpts& o)
     for (size_t q = 0; q < r; q++)
       if (gs.rules[q].ns == gr.ns)
         g.rule_ids.push_back(gs.rules[q].name);
+    if (o.rule_sets)
+    {
+      for (char fam : {'r', 'q', 'w'})
+      {
+        if (fam == gr.name[0])
+          continue;
+        bool later = false;
+        std::vector<std::string> members;
+        for (size_t q = 0; q < nrules; q++)
+          if (ns_of[q] == ns_of[r] && FAM[fam_of[q]] == fam)
+          {
+            if (q < r)
+              members.push_back(gs.rules[q].name);
+            else if (q > r)
+              later = true;
+          }
+        if (!later && !members.empty())
+          g.rule_sets.push_back({strf("(%c*)", fam), members});
+      }
+      if (g.rule_ids.size() >= 2)
+      {
+        // explicit enumeration, possibly mixed with a wildcard
+        std::vector<std::string> m = {g.rule_ids[0], g.rule_ids[g.rule_ids.size() - 1]};
+        g.rule_sets.push_back({"(" + m[0] + ", " + m[1] + ")", m});
+      }
+    }
     g.budget = (int) s.range(2, 14);
     gr.cond = gen_bool(s, g, (int) s.range(1, o.cond_depth));
     std::set<std::string> refs;
